@@ -849,7 +849,21 @@ class Models:
     def meth_VList_reverse(self, I, l):
         items = I.iter_items(l)
         if items is None:
-            raise OutOfSubset('list.reverse on a list of symbolic length')
+            # symbolic length: rev(q) is uninterpreted with |rev(q)| == |q| and rev(q)[i] == q[|q|-1-i], instantiated at both
+            # ends (what code that pops from the reversed list observes first)
+            ctx = I.ctx
+            new = []
+            for q in l.seqs:
+                f = z3.Function('rev_' + str(q.sort()), q.sort(), q.sort())
+                r = f(q)
+                n = z3.Length(q)
+                ctx.assume(z3.Length(r) == n)
+                ctx.assume(z3.Implies(n >= 1, z3.And(r[n - 1] == q[0], r[0] == q[n - 1])))
+                new.append(r)
+            l.seqs = new
+            l.view = None
+            ctx.writeback(l)
+            return VNone()
         items = list(reversed(items))
         l.seqs = [z3.Concat(*[z3.Unit(i.terms()[ci]) for i in items]) if len(items) > 1 else
                   (z3.Unit(items[0].terms()[ci]) if items else z3.Empty(l.seqs[ci].sort())) for ci in range(len(l.seqs))]
